@@ -92,7 +92,7 @@ func checkDecision(d *instDriver, dec *gpbft.Justification, next gpbft.PowerEntr
 		mask = append(mask, int(b))
 		return nil
 	})
-	if !gpbft.IsStrongQuorum(pw, d.pt.ScaledTotal) {
+	if !indepStrong(pw, d.pt.ScaledTotal) {
 		bad("no-strong-quorum", fmt.Sprintf("%d of %d", pw, d.pt.ScaledTotal))
 	}
 	agg, err := d.backend.Aggregate(d.pt.Entries.PublicKeys())
